@@ -186,6 +186,7 @@ class Unit:
         out = Emitter()
         info = {'functions': [], 'extraction': [], 'clauses': [], 'vac': [], 'mutants': [], 'rules': set(), 'loc': 0}
         bidx = 0
+        oneof = {}
         for part in self.parts:
             if part[0] == 'raw':
                 out.raw(part[2], ('unit', part[1]))
@@ -210,11 +211,37 @@ class Unit:
             else:
                 blk = part[1]
                 mu = mutant[1] if (mutant and mutant[0] == bidx) else None
+                group = None
                 for d in blk.dirs:
-                    if d.kind == 'mutant':
-                        info['mutants'].append((bidx, d.arg.split()[0], blk.path))
-                self._emit_block(blk, out, info, mu)
+                    if d.kind == 'oneof':
+                        group = d.arg.split()[0]
+                if group is None:
+                    for d in blk.dirs:
+                        if d.kind == 'mutant':
+                            info['mutants'].append((bidx, d.arg.split()[0], blk.path))
+                    self._emit_block(blk, out, info, mu)
+                else:
+                    # //@oneof G: alternative shapes of the same statement; a block whose anchor is not found is skipped as long as
+                    # another block of the group matches (a mutant of a skipped block cannot be applied: it is reported as lost)
+                    import copy
+                    snap_out, snap_info = copy.deepcopy(out), copy.deepcopy(info)
+                    try:
+                        for d in blk.dirs:
+                            if d.kind == 'mutant':
+                                info['mutants'].append((bidx, d.arg.split()[0], blk.path))
+                        self._emit_block(blk, out, info, mu)
+                        oneof.setdefault(group, []).append(None)
+                    except Maintenance as ex:
+                        out.__dict__.update(snap_out.__dict__)
+                        info.clear()
+                        info.update(snap_info)
+                        oneof.setdefault(group, []).append(str(ex))
+                        if mu is not None:
+                            raise
                 bidx += 1
+        for g, res in oneof.items():
+            if all(r is not None for r in res):
+                raise Maintenance('no alternative of //@oneof %s matches: %s' % (g, ' | '.join(res)))
         # vacuity probes for the template's own lemmas (proof fns with a `requires`)
         raw_text = '\n'.join(p[2] for p in self.parts if p[0] == 'raw')
         try:
